@@ -559,7 +559,18 @@ def check(facts, rep, tier, cfg):
         rep.floor("C01.R12", "permit reservations in client handlers", k12, 2)
         for fname, what in (("add_udp_client", "a datagram from a known local client"), ("send_datagram_reply", "a reply delivered to a local client")):
             fb = [b for b in crate.bodies if b.name == fname or b.path.endswith("%s::{closure#0}" % fname)]
-            hit = [b for b in fb if any(callee(t) and callee(t)["name"] == "refresh" for _, t in b.calls())]
+            # the entry's expiry is extended: a store to `.expires` in the body, or a call of an in-crate fn that stores it
+            def stores_expiry(x):
+                for blk in x.blocks:
+                    for st in blk["stmts"]:
+                        if st["k"] == "Assign":
+                            pr = st["lhs"].get("p") or []
+                            if pr and isinstance(pr[-1], dict) and pr[-1].get("f") == "expires" and "ClientIdMapEntry" in (pr[-1].get("o") or ""):
+                                return True
+                return False
+            refreshers = set(x.dp for x in crate.bodies if stores_expiry(x))
+            hit = [b for b in fb if b.dp in refreshers or any(
+                callee(t) and ((callee(t).get("res") or callee(t)["dp"]) in refreshers) for _, t in b.calls())]
             if hit:
                 rep.ok("C01.R2", "refresh/%s" % fname, "%s (%s)" % (loc_str(hit[0].loc), hit[0].path), "%s extends the entry's expiry" % what)
             else:
@@ -618,17 +629,19 @@ def check(facts, rep, tier, cfg):
                         if not ("SocketAddr" in (g.pred[2] or "") or "IpAddr" in (g.pred[2] or "")):
                             return None
                         sub = subject(g.pred[3][0])
-                        if any(x.kind == "call" for x in walk(sub)):
-                            return None
-                        if targets and fmt(sub) not in targets:
+                        if targets:
+                            if fmt(sub) not in targets:      # must be the very value that is returned as the dial target
+                                return None
+                        elif any(x.kind == "call" for x in walk(sub)):
                             return None
                         v4 = (g.pred[6] == "is_ipv4")
                         return {v4 == (fam == 4)}
                     if g.kind == "discr" and g.adt and g.adt.endswith("SocketAddr") or (g.kind == "discr" and g.adt and g.adt.endswith("IpAddr")):
                         sub = subject(g.pred)
-                        if any(x.kind == "call" for x in walk(sub)):
-                            return None
-                        if targets and fmt(sub) not in targets:
+                        if targets:
+                            if fmt(sub) not in targets:
+                                return None
+                        elif any(x.kind == "call" for x in walk(sub)):
                             return None
                         return {"V4" if fam == 4 else "V6"}
                     return None
